@@ -213,7 +213,7 @@ def check_tree_case(rec, case):
         return
     nontriv = unsorted_both(case["intervals"])
     # -- query ---------------------------------------------------------------
-    rec.ev()
+    rec.ev(len(qs) + len(pts))  # one evaluation per query interval / query point answered by the real tree
     rec.count("tree.query.calls")
     try:
         res = tree.query(qs)
